@@ -201,10 +201,9 @@ def run(chk):
                 "depth 1-3, random mixtures; every case non-trivial; distinct by scenario")
     chk.assumptions = ["a stream is modelled by its total length (or endless); chunking is covered by C06",
                        "risky cases (cyclic delegation) run one per process; abort/timeout are outcomes"]
-    if THEOREMS:
-        chk.proof, fails = C.proof_gate("C09", THEOREMS)
-        for f in fails:
-            chk.broken(f, {"theorem_gate": f})
+    chk.proof, fails = C.proof_gate("C09")
+    for f in fails:
+        chk.broken(f, {"theorem_gate": f})
     C.ensure_harness()
     specs = gen(chk)
     risky = [x for x in specs if x[2].get("risky")]
